@@ -74,6 +74,9 @@ func sigInMode(sig, mode string) bool {
 			return true
 		}
 	}
+	if strings.HasPrefix(sig, "diskloss:") {
+		return true
+	}
 	set := c01Sigs
 	if mode == "c02" {
 		set = c02Sigs
@@ -386,6 +389,22 @@ func newScheduler(c *cluster, r *hx.Rng, spec traceSpec) *scheduler {
 
 // reweigh adapts the weights of the enabled steps to the trace's profile.
 func (s *scheduler) reweigh(ch []choice) []choice {
+	if s.spec.Profile == "diskloss" {
+		if len(s.c.mon.diskLost) > 0 {
+			for i := range ch {
+				st := ch[i].st
+				switch {
+				case strings.HasPrefix(st, "fail:"):
+					ch[i].w *= 4
+				case strings.HasPrefix(st, "crash:") && atoi(st[6:]) == s.curLead:
+					ch[i].w *= 3
+				case strings.HasPrefix(st, "swap:"):
+					ch[i].w = 0
+				}
+			}
+		}
+		return ch
+	}
 	if s.spec.Profile != "minority" {
 		return ch
 	}
@@ -564,6 +583,24 @@ func (s *scheduler) pick() string {
 				st = "wc" + st[1:]
 			}
 			add(st, 14)
+		}
+	}
+	// a node loses its disk (profile diskloss only)
+	if s.spec.Profile == "diskloss" && c.stats["steps"] > 12 {
+		lost := map[int]bool{}
+		for x := range c.mon.diskLost {
+			lost[x] = true
+		}
+		if len(lost) < (s.spec.Rf-1)/2 {
+			for _, x := range c.ids(c.lastMeta.Ensemble) {
+				if n := c.node(x); n != nil && !lost[x] && !c.busy(x) {
+					w := 1
+					if len(c.shadowLog(x)) > 0 && (c.lastMeta.Leader == nil || c.idOf(*c.lastMeta.Leader) != x) {
+						w = 3 // a follower that holds entries
+					}
+					add(fmt.Sprintf("diskloss:%d", x), w)
+				}
+			}
 		}
 	}
 	// the network delivers a copy of an earlier Truncate request again
@@ -879,6 +916,22 @@ func main() {
 			}
 			if sp.Nodes != 4 && r.Intn(100) < 45 {
 				sp.Profile = "minority"
+			}
+			specs = append(specs, sp)
+		}
+		// a separate profile, drawn from its own generator so that the traces above stay what they are: a node loses its
+		// disk (at most one node of an rf-3 ensemble, at most (rf-1)/2 in all: a majority keeps its disk)
+		rd := hx.NewRng(fl.Seed*7919 + 13)
+		nd := fl.N / 8
+		if fl.N > 0 && nd < 3 {
+			nd = 3
+		}
+		for i := 0; i < nd; i++ {
+			sp := traceSpec{Name: fmt.Sprintf("d%d-%d", fl.Seed, i), Seed: rd.U64() >> 1, Length: 60 + rd.Intn(61), Profile: "diskloss"}
+			if rd.Intn(100) < 70 {
+				sp.Nodes, sp.Rf = 3, 3
+			} else {
+				sp.Nodes, sp.Rf = 5, 5
 			}
 			specs = append(specs, sp)
 		}
